@@ -1,0 +1,128 @@
+use std::collections::BTreeMap;
+use std::fmt;
+
+use serde::de::{Deserialize, Deserializer, MapAccess, SeqAccess, Visitor};
+use serde::ser::{Serialize, SerializeMap, SerializeSeq, Serializer};
+
+/// A JSON5 document.
+///
+/// Unlike `serde_json::Value`, it keeps the numbers that JSON5 has and JSON does not
+/// (`Infinity`, `-Infinity` and `NaN`, which would otherwise become `null`), and it accepts
+/// integers that do not fit in 64 bits (they become the nearest floating point number).
+#[derive(Debug, Clone, PartialEq)]
+pub enum Json5Value {
+    Null,
+    Bool(bool),
+    Integer(i64),
+    Unsigned(u64),
+    Float(f64),
+    String(String),
+    Array(Vec<Json5Value>),
+    Object(BTreeMap<String, Json5Value>),
+}
+
+impl<'de> Deserialize<'de> for Json5Value {
+    fn deserialize<D: Deserializer<'de>>(deserializer: D) -> Result<Self, D::Error> {
+        struct ValueVisitor;
+
+        impl<'de> Visitor<'de> for ValueVisitor {
+            type Value = Json5Value;
+
+            fn expecting(&self, formatter: &mut fmt::Formatter) -> fmt::Result {
+                formatter.write_str("any valid JSON5 value")
+            }
+
+            fn visit_bool<E>(self, value: bool) -> Result<Json5Value, E> {
+                Ok(Json5Value::Bool(value))
+            }
+
+            fn visit_i64<E>(self, value: i64) -> Result<Json5Value, E> {
+                Ok(Json5Value::Integer(value))
+            }
+
+            fn visit_u64<E>(self, value: u64) -> Result<Json5Value, E> {
+                Ok(Json5Value::Unsigned(value))
+            }
+
+            fn visit_i128<E>(self, value: i128) -> Result<Json5Value, E> {
+                Ok(Json5Value::Float(value as f64))
+            }
+
+            fn visit_u128<E>(self, value: u128) -> Result<Json5Value, E> {
+                Ok(Json5Value::Float(value as f64))
+            }
+
+            fn visit_f64<E>(self, value: f64) -> Result<Json5Value, E> {
+                Ok(Json5Value::Float(value))
+            }
+
+            fn visit_str<E>(self, value: &str) -> Result<Json5Value, E> {
+                Ok(Json5Value::String(value.to_owned()))
+            }
+
+            fn visit_string<E>(self, value: String) -> Result<Json5Value, E> {
+                Ok(Json5Value::String(value))
+            }
+
+            fn visit_none<E>(self) -> Result<Json5Value, E> {
+                Ok(Json5Value::Null)
+            }
+
+            fn visit_some<D: Deserializer<'de>>(
+                self,
+                deserializer: D,
+            ) -> Result<Json5Value, D::Error> {
+                Deserialize::deserialize(deserializer)
+            }
+
+            fn visit_unit<E>(self) -> Result<Json5Value, E> {
+                Ok(Json5Value::Null)
+            }
+
+            fn visit_seq<A: SeqAccess<'de>>(self, mut sequence: A) -> Result<Json5Value, A::Error> {
+                let mut values = Vec::new();
+                while let Some(value) = sequence.next_element()? {
+                    values.push(value);
+                }
+                Ok(Json5Value::Array(values))
+            }
+
+            fn visit_map<A: MapAccess<'de>>(self, mut map: A) -> Result<Json5Value, A::Error> {
+                let mut values = BTreeMap::new();
+                while let Some((key, value)) = map.next_entry::<String, Json5Value>()? {
+                    values.insert(key, value);
+                }
+                Ok(Json5Value::Object(values))
+            }
+        }
+
+        deserializer.deserialize_any(ValueVisitor)
+    }
+}
+
+impl Serialize for Json5Value {
+    fn serialize<S: Serializer>(&self, serializer: S) -> Result<S::Ok, S::Error> {
+        match self {
+            Self::Null => serializer.serialize_unit(),
+            Self::Bool(value) => serializer.serialize_bool(*value),
+            Self::Integer(value) => serializer.serialize_i64(*value),
+            Self::Unsigned(value) => serializer.serialize_u64(*value),
+            Self::Float(value) => serializer.serialize_f64(*value),
+            Self::String(value) => serializer.serialize_str(value),
+            Self::Array(values) => {
+                let mut sequence = serializer.serialize_seq(Some(values.len()))?;
+                for value in values {
+                    sequence.serialize_element(value)?;
+                }
+                sequence.end()
+            }
+            Self::Object(values) => {
+                let mut map = serializer.serialize_map(Some(values.len()))?;
+                for (key, value) in values {
+                    map.serialize_entry(key, value)?;
+                }
+                map.end()
+            }
+        }
+    }
+}
